@@ -108,7 +108,10 @@ def run(eng, ctx):
                 elif isinstance(par, ast.Attribute) and par.attr in ("update", "pop", "setdefault", "clear", "popitem", "__setitem__", "__delitem__"):
                     what = f"__dict__.{par.attr}()"
             elif isinstance(node, ast.Call) and isinstance(node.func, ast.Name) and node.func.id == "vars":
-                what = "vars() use"
+                from ..resolve import readonly_vars_use
+
+                if not readonly_vars_use(eng.repo, node.func):
+                    what = "vars() use that may write through the attribute dict"
             elif isinstance(node, ast.Call) and isinstance(node.func, ast.Name) and node.func.id in ("setattr", "delattr") and f.cls != cls and f.module != mod:
                 # setattr on something from outside the message class: only a problem if the target may be a message
                 if f.module == "rtcmhelpers":
